@@ -23,13 +23,13 @@ RULE = ('frames with 1-6 locals drawn from a sharing-heavy generator (same objec
         'default or (calibrated) small enough to be hit; non-trivial = snapshot delivered and the frame contains '
         'sharing, a cycle or a watch; distinct by canonical case')
 ASSUMPTIONS = ['identity of watch temporaries cannot be compared (they are freed); their type/text is compared instead']
-REQUIRE = {'snapshots_checked': 300, 'references_resolved': 3000, 'shared_objects_seen': 100, 'cycles_seen': 50,
+REQUIRE = {'capture_snapshots': 60, 'snapshots_checked': 300, 'references_resolved': 3000, 'shared_objects_seen': 100, 'cycles_seen': 50,
            'temp_watches': 200, 'budget_hit_cases': 10, 'locals_of_locals_cases': 10}
 
 
 def plan(tier, seed):
     n = {'quick': 1920, 'thorough': 28800}[tier]
-    return split_seeds('d%s' % seed, n, 16, 'dedup')
+    return split_seeds('d%s' % seed, n, 14, 'dedup') + split_seeds('k%s' % seed, n // 8, 2, 'capture')
 
 
 TEMP_WATCHES = ['[{a}]', '({a}, {b})', 'str({a})', '{{"k": {a}}}', '[1, 2, 3]', '"lit" + "eral"', '1/0', 'nope_zz',
@@ -72,9 +72,17 @@ def case_dedup(seed, out, spec, wd):
         gg.kinds.add('shared')
     budget = r.pick([None, None, None, 2, 4, 7, 12])
     wl = []
-    for _ in range(r.pick([0, 1, 2, 4, 8])):
-        t = r.pick(TEMP_WATCHES + REAL_WATCHES + REAL_WATCHES)
-        wl.append(t.format(a=names[0], b=names[-1]))
+    if r.chance(0.2):
+        # many short-lived temporaries of one allocation class in a row: freed ids get reused at once
+        kind_ = r.pick(['float', 'str', 'int', 'list', 'mixed'])
+        for j in range(r.randrange(5, 12)):
+            k_ = kind_ if kind_ != 'mixed' else r.pick(['float', 'str', 'int', 'list'])
+            wl.append({'float': '%d.5 * 3' % (j + 1), 'str': '"t%d-" + "x" * 3' % j, 'int': '10 ** 12 + %d' % j,
+                       'list': '[%d, "l"]' % j}[k_])
+    else:
+        for _ in range(r.pick([0, 1, 2, 4, 8])):
+            t = r.pick(TEMP_WATCHES + REAL_WATCHES + REAL_WATCHES)
+            wl.append(t.format(a=names[0], b=names[-1]))
     nact = r.pick([1, 1, 2])
     case = FrameCase(wd, names, values)
     if special == 'locals_of_locals':
@@ -180,6 +188,80 @@ def case_dedup(seed, out, spec, wd):
              sample=dict(witness, snapshots=st['snaps'], references=st['refs']))
 
 
+CAPTURE_HOST = '''"""c07 capture host"""
+
+
+def churn(a, box, keep):
+    first = box[0]
+    del first
+    box.clear()                      # the nested objects collected at entry are dropped here
+    fresh = [a, "new-%s" % a]        # ... and fresh ones are allocated (often at the same address)
+    again = {"k": a}
+    return @RET@
+'''
+
+
+def case_capture(seed, out, spec, wd):
+    """Deferred (method_capture) snapshots: the table stays closed and one id stays one object after the capture."""
+    r = Rng('c07k', seed)
+    ret = r.pick(['fresh', 'again', '[fresh, again]', '{"args": [a, keep], "fresh": fresh}', 'keep', '(a, keep)',
+                  '[keep, keep]'])
+    path = os.path.join(wd, 'c07cap_%s.py' % str(seed).replace(':', '_'))
+    with open(path, 'w') as f:
+        f.write(CAPTURE_HOST.replace('@RET@', ret))
+    base = os.path.basename(path)
+    mod = hostframe.load(path)
+    from vf.rig import Rig
+    rig = Rig(custom={}, host_dir=wd)
+    wl = r.sample(['a', 'keep', '[a]', 'len(box)'], r.randrange(0, 3))
+    rig.install([direct_trigger('cap', base, None, 'Snapshot', {'stage': 'method_capture', 'watches': wl,
+                                                                 'frame_type': r.pick(['single_frame', 'all_frame'])},
+                                function='churn')])
+    probs = snapcheck.Problems()
+    st = {'n': 0}
+    a = r.randrange(1000, 9999)
+    keep = {'id': a, 'tags': ['t', a]}
+    box = [[a, 'one', 1.5], {'n': a}, ['x' * 3]]
+
+    def post(ev, frame, arg):
+        if ev.kind == 'return' and ev.func == 'churn' and ev.base == base:
+            for rec in [p for p in rig.push.pushed if p.ev is ev]:
+                st['n'] += 1
+                snap = rec.snapshot
+                snapcheck.check_closed(snap, probs)
+                caps = [w for w in snap.watches if w.source == 'CAPTURE']
+                if len(caps) != 1 or caps[0].result is None:
+                    probs.add('capture:missing', 'deferred snapshot carries %d capture results' % len(caps))
+                    continue
+                # the returned object is alive here: the capture entry must describe exactly it
+                roots = [(caps[0].result, arg)]
+                # arguments still bound in the frame are the same objects that were collected at entry
+                for v in snap.frames[0].variables:
+                    if v.name in ('a', 'keep') and v.name in frame.f_locals:
+                        roots.append((v, frame.f_locals[v.name]))
+                snapcheck.check_table(snap.var_lookup, roots, 1024, probs, strict_children=None, max_coll=10)
+
+    rig.post = post
+    hung = False
+    res, exc = rig.run(mod.churn, a, box, keep)
+    rig.cleanup()
+    replay = replay_spec(spec, seed)
+    witness = {'returns': ret, 'watches': wl}
+    if exc is not None:
+        out.inconc('C07 capture host raised %r' % (exc,))
+        return
+    if st['n'] != 1:
+        out.violation('presence:no-snapshot', 'method_capture due once, %d deferred snapshots delivered at return' % st['n'],
+                      witness, replay)
+    if rig.escapes:
+        probs.add('containment:escape', 'trace handler raised: %s' % rig.escapes[0][2][-300:])
+    for mech, what in probs:
+        out.violation(mech, what, witness, replay)
+    out.count('capture_snapshots', st['n'])
+    out.count('snapshots_checked', st['n'])
+    out.case({'ret': ret, 'w': wl, 'a': a}, nontrivial=st['n'] > 0, sample=dict(witness, delivered=st['n']))
+
+
 def _skel(v, depth=0):
     if depth > 2:
         return type(v).__name__
@@ -194,6 +276,9 @@ def run_shard(spec, out):
     wd = Workdir('c07')
     try:
         for seed in spec_seeds(spec):
-            case_dedup(seed, out, spec, wd.path)
+            if spec['kind'] == 'capture':
+                case_capture(seed, out, spec, wd.path)
+            else:
+                case_dedup(seed, out, spec, wd.path)
     finally:
         wd.close()
